@@ -829,7 +829,16 @@ class BlobStorage(BlobStorageMixin):
                 latest = files[-1]  # depends on ever-increasing tids
                 files.remove(latest)
                 for f in files:
-                    remove_committed(os.path.join(oid_path, f))
+                    filepath = os.path.join(oid_path, f)
+                    # The storage may still hold an older revision (the
+                    # one current at the pack time, for readers of that
+                    # snapshot): its file stays.
+                    whatever, serial = self.fshelper.splitBlobFilename(
+                        filepath)
+                    try:
+                        self.loadSerial(oid, serial)
+                    except POSKeyError:
+                        remove_committed(filepath)
             else:
                 remove_committed_dir(oid_path)
                 continue
